@@ -231,6 +231,7 @@ type exprSpec struct {
 	Match string      `json:"match"` // the selected expression is the first one of that kind whose printed text contains Match
 	Lean  string      `json:"lean"`  // name of the generated definition: AutoVerif.Gen.Src.<lean>
 	Vars  [][3]string `json:"vars"`  // {go text of a leaf, lean parameter name, lean type Nat|Int|Bool|String}
+	Marks []string    `json:"marks"` // kind "tree": an effect statement whose text contains one of these counts as an exit
 }
 
 var exprs []exprSpec // loaded from extract/exprs.d/*.json (one file per property)
@@ -477,6 +478,15 @@ func translateTree(fi *fileInfo, fd *ast.FuncDecl, sp exprSpec) (string, error) 
 	}
 	// number the terminating statements of the block in source order (nested function literals and nested loops excluded
 	// for continue/break, which would refer to the inner loop)
+	isMarked := func(st ast.Stmt) bool {
+		t := norm(printNode(fi.fset, st))
+		for _, mk := range sp.Marks {
+			if mk != "" && strings.Contains(t, norm(mk)) {
+				return true
+			}
+		}
+		return false
+	}
 	leaf := map[token.Pos]int{}
 	type retT struct {
 		n int
@@ -508,6 +518,11 @@ func translateTree(fi *fileInfo, fd *ast.FuncDecl, sp exprSpec) (string, error) 
 				if !inLoop && (x.Tok == token.CONTINUE || x.Tok == token.BREAK) {
 					leaf[x.Pos()] = len(leaf) + 1
 					leafDoc = append(leafDoc, fmt.Sprintf("%d = line %d `%s`", len(leaf), fi.fset.Position(x.Pos()).Line, x.Tok.String()))
+				}
+			case *ast.ExprStmt, *ast.AssignStmt, *ast.IncDecStmt:
+				if st, ok := m.(ast.Stmt); ok && isMarked(st) {
+					leaf[st.Pos()] = len(leaf) + 1
+					leafDoc = append(leafDoc, fmt.Sprintf("%d = line %d reached `%s`", len(leaf), fi.fset.Position(st.Pos()).Line, strings.ReplaceAll(strings.SplitN(printNode(fi.fset, st), "\n", 2)[0], "-/", "- /")))
 				}
 			}
 			return true
@@ -620,6 +635,9 @@ func translateTree(fi *fileInfo, fd *ast.FuncDecl, sp exprSpec) (string, error) 
 			}
 			return build(0)
 		case *ast.ExprStmt, *ast.AssignStmt, *ast.IncDecStmt, *ast.DeclStmt, *ast.DeferStmt, *ast.GoStmt, *ast.ForStmt, *ast.RangeStmt, *ast.EmptyStmt:
+			if n, ok := leaf[stmts[0].Pos()]; ok {
+				return fmt.Sprint(n), nil // a marked effect: reaching it is recorded as an exit (what follows is not looked at)
+			}
 			return rest() // an effect: no control flow out of the block
 		}
 		return "", fmt.Errorf("unsupported statement `%s`", strings.SplitN(printNode(fi.fset, stmts[0]), "\n", 2)[0])
